@@ -206,6 +206,10 @@ bool StringToUrlHost(const std::string &str, Url::Host &host)
                 host.password = UrlDecode(str.substr(colon_pos + 1, at_pos - colon_pos - 1));
             }
             host_start_pose = at_pos + 1;
+        } else {
+            //! no user part in the text: a re-used host object must not keep the old one
+            host.user.clear();
+            host.password.clear();
         }
 
         auto colon_pos = str.find_first_of(':', host_start_pose);
